@@ -787,7 +787,12 @@ func (g *gen) seqLeaf() *N {
 func (g *gen) rangeExpr() *N {
 	if g.cfg.AllocOnly {
 		// bounds come from the environment: a run-time range
-		switch g.r.Intn(3) {
+		switch g.r.Intn(5) {
+		case 3:
+			// bounds of a narrow integer kind, alone or mixed with an int
+			return nBin("..", nID(g.r.Pick([]string{"I8", "U8"})), nInt(g.r.Range(100, 400)))
+		case 4:
+			return nBin("..", nInt(g.r.Range(-130, -90)), nID(g.r.Pick([]string{"I8", "U8", "U16"})))
 		case 0:
 			return nBin("..", nID("N"), nID("M"))
 		case 1:
